@@ -144,7 +144,7 @@ impl<L: Localize> OpeningHours<L> {
         }
 
         let mut prev_match = false;
-        let mut prev_eval = None;
+        let mut prev_eval: Option<Schedule> = None;
 
         for rules_seq in &self.expr.rules {
             let curr_match = rules_seq.day_selector.filter(date, &self.ctx);
@@ -157,7 +157,12 @@ impl<L: Localize> OpeningHours<L> {
                     if curr_match {
                         curr_eval
                     } else {
-                        prev_eval.or(curr_eval)
+                        // The rule doesn't apply today: it can only contribute time spans
+                        // continued from the previous day, which overlay previous rules.
+                        match (prev_eval, curr_eval) {
+                            (Some(prev), Some(curr)) => Some(prev.addition(curr)),
+                            (prev, curr) => prev.or(curr),
+                        }
                     },
                 ),
                 (RuleOperator::Additional, _) | (RuleOperator::Normal, RuleKind::Closed) => (
